@@ -26,6 +26,9 @@ def alphabet(tier):
     ops.append(("sim", BIG, True, True, tuple(range(1, 12))))  # eleven consecutive project-wide absence steps
     ops.append(("simauto", (0, 2)))  # simulate(absence=[0,2], perform_auto_task_while_absence_time=True)
     ops.append(("simauto", (1,)))
+    ops.append(("reload",))  # write_simple_json, read into a NEW project, go on there
+    ops.append(("simreload", 1))  # simulate(max_time=1), then the same
+    ops.append(("simreload", 2))
     ops.append(("insert", (1,)))  # insert_absence_time_list([1]) - names a step that is already registered when the run had absence [1]
     ops.append(("insert", (0, 2, 2)))
     ops.append(("remove",))
@@ -67,6 +70,7 @@ def base_models():
     out.append(sp)
     out.append(F.shared_child_spec())
     out.append(F.with_teams({"tasks": [{"name": "T0", "work": 2.0, "progress": 1.0}, {"name": "T1", "work": 2.0, "progress": 0.5}, {"name": "T2", "work": 1.0}], "links": [[0, 2, "FS"]]}, "POOL2"))  # done / half done
+    out.append(F.idle_component_spec())  # component C0 carries the first and the last task of a chain: WORKING - idle - WORKING
     out.append(F.team_hierarchy_spec())
     out += [sp for sp in F.scale_specs() if sp["label"] in ("scale:layers3x4", "scale:8components")]  # 12 tasks in three teams; 8 components and 10 machines  # three nested teams / workplaces, one workplace without any facility
     # automatic task with a half-integer rate (remaining work crosses zero between steps) next to worked tasks
@@ -176,6 +180,33 @@ def replay_history(spec, hist):
     viol = []
     for k, op in enumerate(hist):
         bad = []
+        if op[0] == "simreload":
+            try:
+                apply_op(m, ("sim", op[1], True, True, ()), bad)
+            except Exception as e:
+                viol.append(("C08:operation-raised:sim:%s" % type(e).__name__, {"op": op, "k": k, "error": repr(e)}))
+                return m, viol, True
+        if op[0] in ("reload", "simreload"):
+            import os
+            import tempfile
+            from pDESy.model.base_project import BaseProject
+
+            fd, path = tempfile.mkstemp(prefix="verif-c08-", suffix=".json")
+            os.close(fd)
+            try:
+                m.project.write_simple_json(path)
+                p2 = BaseProject()
+                p2.read_simple_json(path)
+                m = S.adopt(p2)
+            except Exception as e:
+                viol.append(("C08:operation-raised:reload:%s" % type(e).__name__, {"op": op, "k": k, "error": repr(e)}))
+                return m, viol, True
+            finally:
+                os.unlink(path)
+            al = check_alignment(m)
+            if al is not None:
+                viol.append(("C08:logs-not-aligned-after:reload", {"op": op, "k": k, "alignment": al}))
+            continue
         before = S.dump(m, live=False) if op[0] == "reverse" else None
         try:
             apply_op(m, op, bad)
@@ -229,7 +260,9 @@ def work(chunk):
     col = engines.Collector()
     for spec, depth, ops, first in chunk:
         aliased = any(w.get("share_logs_with") for tm in spec.get("teams", []) for w in tm.get("workers", []))
-        if first[0][0] in ("insert", "remove"):
+        if first[0][0] in ("insert", "remove", "reload") or any(t.get("sub") for t in spec["tasks"]):
+            pass
+        if first[0][0] in ("insert", "remove", "reload") or (first[0][0] == "simreload" and any(t.get("sub") for t in spec["tasks"])):
             continue  # absence edits are applied to results (C18 explores them on their own); here they follow a run
         if aliased and not (first[0][0] in ("sim", "simauto", "back", "simu", "init") and (first[0][0] != "sim" or first[0][3])):
             # two workers that share their log list objects are un-shared by the first log-initialising call; a history that
